@@ -12,56 +12,56 @@ CONSTANTS Years,       \* years-in-cycle whose chains are walked (0..399 = the w
           EmitVec,     \* BOOLEAN
           Cycles,      \* cycle indices vectors are emitted for
           Secs,        \* seconds of day vectors are emitted for
-          Mod, Rem     \* emit only days n with n % Mod = Rem
-VARIABLES n, y, mo, d          \* n = day in cycle; (y, mo, d) = civil date by the axioms, y = year in cycle
-vars == <<n, y, mo, d>>
+          Mod, Rem     \* emit only days vN with vN % Mod = Rem
+VARIABLES vN, vY, vMo, vD          \* vN = day in cycle; (vY, vMo, vD) = civil date by the axioms, vY = year in cycle
+vars == <<vN, vY, vMo, vD>>
 CyclesQuick == {-5368710, 4, 5, 5368709}
 CyclesThorough == {-5368710, -5368709, -1, 0, 4, 5, 5368708, 5368709}
 
-\* axiom: the day after (y, mo, d)
+\* axiom: the day after (vY, vMo, vD)
 NextDay(yy, mm, dd) == IF dd < DaysInMonth(IsLeap(yy), mm) THEN <<yy, mm, dd + 1>>
                        ELSE IF mm < 12 THEN <<yy, mm + 1, 1>> ELSE <<yy + 1, 1, 1>>
-Init == y \in Years /\ mo = 1 /\ d = 1 /\ n = DBYTab[y]
-Next == /\ ~(mo = 12 /\ d = 31)
-        /\ n' = n + 1
-        /\ LET nd == NextDay(y, mo, d) IN y' = nd[1] /\ mo' = nd[2] /\ d' = nd[3]
+Init == vY \in Years /\ vMo = 1 /\ vD = 1 /\ vN = DBYTab[vY]
+Next == /\ ~(vMo = 12 /\ vD = 31)
+        /\ vN' = vN + 1
+        /\ LET nd == NextDay(vY, vMo, vD) IN vY' = nd[1] /\ vMo' = nd[2] /\ vD' = nd[3]
 Spec == Init /\ [][Next]_vars
-\* the chain of year y ends exactly where the chain of year y+1 starts: the 400 chains are one walk
-YearEnd == (mo = 12 /\ d = 31) => (n + 1 = DBYTab[y + 1] /\ NextDay(y, mo, d) = <<y + 1, 1, 1>>)
+\* the chain of year vY ends exactly where the chain of year vY+1 starts: the 400 chains are one walk
+YearEnd == (vMo = 12 /\ vD = 31) => (vN + 1 = DBYTab[vY + 1] /\ NextDay(vY, vMo, vD) = <<vY + 1, 1, 1>>)
 
 DayOK ==
-  LET t == <<4, n, 0>> cv == Civil(t) IN
-  /\ cv.yic = y /\ cv.mo = mo /\ cv.d = d                       \* arithmetic = axiomatic
-  /\ cv.wd = (n + 6) % 7
-  /\ cv.yd = n - DBYTab[y] /\ cv.yd < YearLen(IsLeap(y)) /\ ((mo = 1 /\ d = 1) <=> cv.yd = 0)
-  /\ ValidDate(y, mo, d) /\ ~ValidDate(y, mo, DaysInMonth(IsLeap(y), mo) + 1)
-  /\ UnixOf(1600 + y, mo, d, 0, 0, 0) = t                        \* timegm inverse of gmtime
-  /\ UnixOf(1600 + y, mo, d, 23, 59, 60) = CAddDays(t, 1)        \* second 60 = second 0 of the next minute
-  /\ UnixOf(-2147483600 + y, mo, d, 0, 0, 0) = <<-5368709, n, 0>>
-  /\ WToCDS(CDSToW(t)) = t /\ WToCDS(CDSToW(<<-5368710, n, 86399>>)) = <<-5368710, n, 86399>>
-  /\ (n > 0 => CLt(<<4, n - 1, 86399>>, t))                      \* strictly monotone
+  LET t == <<4, vN, 0>> cv == Civil(t) IN
+  /\ cv.yic = vY /\ cv.mo = vMo /\ cv.d = vD                       \* arithmetic = axiomatic
+  /\ cv.wd = (vN + 6) % 7
+  /\ cv.yd = vN - DBYTab[vY] /\ cv.yd < YearLen(IsLeap(vY)) /\ ((vMo = 1 /\ vD = 1) <=> cv.yd = 0)
+  /\ ValidDate(vY, vMo, vD) /\ ~ValidDate(vY, vMo, DaysInMonth(IsLeap(vY), vMo) + 1)
+  /\ UnixOf(1600 + vY, vMo, vD, 0, 0, 0) = t                        \* timegm inverse of gmtime
+  /\ UnixOf(1600 + vY, vMo, vD, 23, 59, 60) = CAddDays(t, 1)        \* second 60 = second 0 of the next minute
+  /\ UnixOf(-2147483600 + vY, vMo, vD, 0, 0, 0) = <<-5368709, vN, 0>>
+  /\ WToCDS(CDSToW(t)) = t /\ WToCDS(CDSToW(<<-5368710, vN, 86399>>)) = <<-5368710, vN, 86399>>
+  /\ (vN > 0 => CLt(<<4, vN - 1, 86399>>, t))                      \* strictly monotone
   /\ DtInv(DtRec(t, 7, [off |-> -86399, dst |-> 0, des |-> <<>>]))
-  /\ DtInv(DtRec(<<5, n, 86399>>, 0, [off |-> 2147483647, dst |-> 1, des |-> <<65, 66, 67>>]))
-  /\ UdtInv(UdtRec(<<3, n, 3661>>, 999999999))
-  /\ UdtInv(UdtOfFields(1600 + y, mo, d, 23, 59, 60, 5))
+  /\ DtInv(DtRec(<<5, vN, 86399>>, 0, [off |-> 2147483647, dst |-> 1, des |-> <<65, 66, 67>>]))
+  /\ UdtInv(UdtRec(<<3, vN, 3661>>, 999999999))
+  /\ UdtInv(UdtOfFields(1600 + vY, vMo, vD, 23, 59, 60, 5))
 
 Hms(s) == <<s \div 3600, (s % 3600) \div 60, s % 60>>
 GmVec(c, s, via) ==
-  LET t == <<c, n, s>> a == [t |-> CDSToW(t), ns |-> 0, via |-> via]
+  LET t == <<c, vN, s>> a == [t |-> CDSToW(t), ns |-> 0, via |-> via]
       out == IF via = "utc" THEN Gmtime(t, 0) ELSE FromLocal(t, 0, UtcType)
   IN [op |-> "gmtime", a |-> a, x |-> {[ok |-> v] : v \in out.ok} \cup {[err |-> k] : k \in out.err}]
 TgVec(c, s, dd, via) ==        \* dd = day offset: 0 = this day, 1 = the day after the last of the month (must be refused)
-  LET yy == YInt(c, y) hms == IF s = 86400 THEN <<23, 59, 60>> ELSE Hms(s)
-      a == [y |-> yy, mo |-> mo, d |-> d + dd, h |-> hms[1], mi |-> hms[2], s |-> hms[3], ns |-> 1, via |-> via]
+  LET yy == YInt(c, vY) hms == IF s = 86400 THEN <<23, 59, 60>> ELSE Hms(s)
+      a == [y |-> yy, mo |-> vMo, d |-> vD + dd, h |-> hms[1], mi |-> hms[2], s |-> hms[3], ns |-> 1, via |-> via]
       out == IF via = "utc" THEN Timegm(a.y, a.mo, a.d, a.h, a.mi, a.s, a.ns) ELSE NewDt(a.y, a.mo, a.d, a.h, a.mi, a.s, a.ns, UtcType)
   IN [op |-> "timegm", a |-> a, x |-> {[ok |-> v] : v \in out.ok} \cup {[err |-> k] : k \in out.err}]
-Emit == (EmitVec /\ n % Mod = Rem) =>
-          \A c \in Cycles : YearFitsI32(c, y) =>
+Emit == (EmitVec /\ vN % Mod = Rem) =>
+          \A c \in Cycles : YearFitsI32(c, vY) =>
             /\ \A s \in Secs : /\ PrintT(<<"VEC", ToJson(GmVec(c, s, IF s % 2 = 0 THEN "utc" ELSE "dt"))>>)
                                /\ PrintT(<<"VEC", ToJson(TgVec(c, s, 0, IF s % 2 = 0 THEN "dt" ELSE "utc"))>>)
             /\ PrintT(<<"VEC", ToJson(TgVec(c, 86400, 0, "utc"))>>)
-            /\ (d = DaysInMonth(IsLeap(y), mo) => PrintT(<<"VEC", ToJson(TgVec(c, 0, 1, "utc"))>>))
-            /\ (d = 1 => PrintT(<<"VEC", ToJson(TgVec(c, 0, -1, "dt"))>>))
+            /\ (vD = DaysInMonth(IsLeap(vY), vMo) => PrintT(<<"VEC", ToJson(TgVec(c, 0, 1, "utc"))>>))
+            /\ (vD = 1 => PrintT(<<"VEC", ToJson(TgVec(c, 0, -1, "dt"))>>))
 Consts ==
   /\ CDSToW(MinT) = MinTW /\ CDSToW(MaxT) = MaxTW
   /\ InRange(MinT) /\ InRange(MaxT) /\ ~InRange(CAddSec(MinT, -1)) /\ ~InRange(CAddSec(MaxT, 1))
@@ -73,5 +73,5 @@ Consts ==
   /\ Timegm(2147483647, 12, 31, 23, 59, 60, 0).ok = {} /\ Timegm(2147483647, 12, 31, 23, 59, 59, 0).ok # {}
   /\ NewDt(2147483647, 12, 31, 23, 59, 60, 0, UtcType).ok = {}
   /\ \A k \in 0..399 : IsLeap(k) = (DBYTab[k + 1] - DBYTab[k] = 366)
-Inv == DayOK /\ YearEnd /\ Emit /\ (n = 0 => Consts)
+Inv == DayOK /\ YearEnd /\ Emit /\ (vN = 0 => Consts)
 =============================================================================
